@@ -2386,6 +2386,22 @@ class OMPTeamsDistributeParallelDoDirective(OMPParallelDoDirective):
     ''' Class representing the OMP teams distribute parallel do directive. '''
     _directive_string = "teams distribute parallel do"
 
+    def validate_global_constraints(self):
+        '''
+        Perform validation checks that can only be done at code-generation
+        time.
+
+        :raises GenerationError: if this directive is nested inside an
+            OpenMP region other than a target region.
+
+        '''
+        omp_parent = self.ancestor(OMPDirective)
+        if omp_parent and not isinstance(omp_parent, OMPTargetDirective):
+            raise GenerationError(
+                f"A teams construct must be strictly nested inside a target "
+                f"region but found it inside a {type(omp_parent).__name__}.")
+        super().validate_global_constraints()
+
 
 class OMPTargetDirective(OMPRegionDirective):
     ''' Class for the !$OMP TARGET directive that offloads the code contained
@@ -2716,6 +2732,13 @@ class OMPSimdDirective(OMPRegionDirective):
             raise GenerationError(
                 f"The OMP SIMD directives must always have one and only one"
                 f" associated loop, but found: '{self.debug_string()}'")
+        for node in self.dir_body.walk(OMPDirective):
+            if not isinstance(node, (OMPSimdDirective, OMPLoopDirective,
+                                     OMPAtomicDirective)):
+                raise GenerationError(
+                    f"OpenMP constructs other than simd, loop or atomic may "
+                    f"not be nested inside an OMPSimdDirective region but "
+                    f"found a {type(node).__name__}.")
 
 
 # For automatic API documentation generation
